@@ -785,6 +785,19 @@ def run(ctx):
     badc = faulty_case(ctx, r, ["corrupt-data"]); badc["target"] = good["target"]
     badc["parts"][0] = ("bt", bt_handshake(good["target"]))
     e2e.append([badc, good])
+    # one honest seeder in a crowd of peers that complete both handshakes and then serve something else, stall or hang up: the
+    # tracker's list is a set, the client may try the peers in any order and on any number of threads, and must still end up
+    # with the honest peer's dictionary (added after seeded change C11-15: only the first peer to shake hands was asked)
+    for crowd in (5, 12, 24) + ((40, 60) if ctx.thorough else ()):
+        goodc = honest_case(ctx, r, size=r.choice([None, 16385, 32768]), noise_p=0.2, cut="random", label="honest-in-a-crowd")
+        cs = []
+        for _ in range(crowd):
+            f = faulty_case(ctx, r, [r.choice(["corrupt-data", "lying-size+1", "wrong-total", "oversize-piece", "wrong-piece-index",
+                                               "early-close", "undersize-piece", "lying-size-1"])])
+            f["target"] = goodc["target"]; f["parts"][0] = ("bt", bt_handshake(goodc["target"]))
+            cs.append(f)
+        cs.insert(r.randrange(len(cs) + 1), goodc)
+        e2e.append(cs)
     e2e.append([])                                  # tracker returns no peers
     c = honest_case(ctx, r, info=make_info(r, opt=set(), update_url="http://example.com"), noise_p=0.0, cut="whole", label="honest-nonnormal-url")
     c["known"] = KNOWN_KEY
